@@ -111,6 +111,22 @@ def at_scale_case(ctx, g, rng):
             conv = api.Converter([gen.mk_record(api, r) for r in recs], delimiter=d)
         strict = fail_at is not None and rng.random() < 0.5
         df = pd.DataFrame({"i": [r[0] for r in rows], "x": [r[1] for r in rows], "o": [r[2] for r in rows]})
+        # (large frames are seldom fresh from the constructor: sorted, filtered, re-indexed - seed C16-W: a fast path for
+        #  long columns that puts the results back by label instead of by position)
+        istyle = rng.choice(["default", "shuffled", "strings", "offset", "filtered", "sorted", "reversed"])
+        if istyle == "shuffled":
+            df.index = rng.sample(range(n), k=n)
+        elif istyle == "strings":
+            df.index = [f"row{i}" for i in rng.sample(range(n), k=n)]
+        elif istyle == "offset":
+            df.index = range(100, 100 + n)
+        elif istyle == "filtered":
+            df = df[[i % 3 != 1 for i in range(n)]]
+        elif istyle == "sorted":
+            df = df.sort_values("x", kind="stable")
+        elif istyle == "reversed":
+            df = df.iloc[::-1]
+        S.counters[f"wl:at-scale:frame-index:{istyle}"] += 1
         call(getattr(conv, "pd_" + meth), df, "x", target_column=rng.choice([None, "y"]), strict=strict, passthrough=rng.random() < 0.3)
         path = ctx.tmp / "c16.tsv"
         write_table(path, ["i", "x", "o"], rows, None, "\n")
